@@ -235,6 +235,21 @@ func (s *genState) budgets() string {
 		stage++
 	}
 	bs = append(bs, fmt.Sprintf("2:%d:%d", stage, amt()))
+	if r.Chance(3) { // budgets whose Fixed64 sum does not fit (wraps to a small or zero value)
+		big := []string{"4611686018427387904", "4611686018427387904", "4611686018427387904", "4611686018427387904"}
+		if r.Chance(50) {
+			big = []string{"9223372036854775807", "9223372036854775807", "3"} // wraps to 1
+		}
+		var ws []string
+		for i, a := range big {
+			ty := 1
+			if i == len(big)-1 {
+				ty = 2
+			}
+			ws = append(ws, fmt.Sprintf("%d:%d:%s", ty, i+1, a))
+		}
+		return strings.Join(ws, ",")
+	}
 	if r.Chance(4) { // malformed shapes
 		switch r.Intn(3) {
 		case 0:
@@ -292,7 +307,14 @@ func (s *genState) randomTx() {
 			// progress on a stage: mostly one that is still open
 			n := len(ps.Proposal.Budgets)
 			stage := r.Intn(n + 2)
-			s.g.Emit("track %d p %d", id, stage)
+			switch r.Intn(8) {
+			case 0:
+				s.g.Emit("track %d c %d", id, r.Pick(0, 0, 0, 1))
+			case 1:
+				s.g.Emit("track %d r %d", id, stage)
+			default:
+				s.g.Emit("track %d p %d", id, stage)
+			}
 		}
 	case 6:
 		if id, ps := s.pick(); ps != nil && (ps.Status == crstate.VoterAgreed || r.Chance(20)) {
